@@ -15,6 +15,10 @@ Require Import V.Proofs.C09OracleProofs.
 Require Import V.Proofs.C10OracleProofs.
 Require Import V.Proofs.C10ImagesProofs.
 Require Import V.Proofs.C10CountersProofs.
+Require Import V.Proofs.ConductorChan.
+Require Import V.Proofs.C10ChanProofs.
+Require Import V.Model.ConductorReent.
+Require Import V.Proofs.ConductorReentProofs.
 Open Scope Z_scope.
 
 (* ---- C10_total: whatever the state and the operation - any driver event with any field values, an overrun or
@@ -31,6 +35,10 @@ Print Assumptions C10_total_history.
 Theorem C10_close_never_relocks : forall s, snd (close_all s) = false.
 Proof. exact close_all_no_hang. Qed.
 Print Assumptions C10_close_never_relocks.
+(* the same for the cached subscriptions a channel endpoint error makes it drop (they were closed just before) *)
+Theorem C10_chan_error_never_relocks : forall x s, snd (on_event (EvChanError x) s) = false.
+Proof. exact on_chan_error_no_hang. Qed.
+Print Assumptions C10_chan_error_never_relocks.
 
 (* ---- C10_reported ---- *)
 (* an overrun / an oversize message makes the duty cycle return an error, and it does nothing else *)
@@ -130,12 +138,91 @@ Theorem C10_close_handler_once : forall c ops s, inv s ->
 Proof. intros. apply close_handler_once. auto. Qed.
 Print Assumptions C10_close_handler_once.
 
+(* ---- channel endpoint errors (ErrorResponse with error code 4) ---- *)
+(* the error handler is called with ChannelEndpointException(id) exactly once for every live resource on that channel status
+   indicator (subscriptions from their ready answer on, publications / exclusive publications that are held), ... *)
+Theorem C10_chan_error_reported : forall x s, inv s ->
+  n_chan_err x (snd (fst (on_event (EvChanError x) s))) = (n_hit KSub x (subs s) + n_hit KPub x (pubs s) + n_hit KXPub x (xpubs s))%nat.
+Proof. exact chan_error_handler_calls. Qed.
+Print Assumptions C10_chan_error_reported.
+(* ... by that duty cycle, with that id, and by no other operation *)
+Theorem C10_chan_error_only_there : forall c s o y,
+  In (CbErr (EChannelEndpoint y)) (snd (fst (snd (step c s o)))) -> o = DoWork (BEvent (EvChanError y)).
+Proof. exact step_chan_errs. Qed.
+Print Assumptions C10_chan_error_only_there.
+(* every image of a subscription the error ends gets exactly one unavailable callback, no other image gets one *)
+Theorem C10_chan_error_images : forall x s r img, inv s ->
+  n_unavail_img r img (snd (fst (on_event (EvChanError x) s))) =
+  match lookup r (subs s) with
+  | Some e => match chan_hit KSub x e with Some o => count_z img (o_images o) | None => 0%nat end
+  | None => 0%nat
+  end.
+Proof. exact chan_error_images. Qed.
+Print Assumptions C10_chan_error_images.
+(* a closed client is not touched: no callback, no registration (there is none), no handle changes *)
+Theorem C10_chan_error_closed : forall x s, inv s -> closed s = true ->
+  snd (fst (on_event (EvChanError x) s)) = [] /\ (forall k, getm k (fst (fst (on_event (EvChanError x) s))) = getm k s) /\
+  orphans (fst (fst (on_event (EvChanError x) s))) = orphans s.
+Proof. exact chan_error_closed. Qed.
+Print Assumptions C10_chan_error_closed.
+
+(* ---- re-entrant calls: a user callback that calls the client (Model/ConductorReent.v) ----
+   FINDING class=reentrant-call-deadlock (KNOWN_FINDINGS.txt): every route from user code to the conductor locks
+   Arc<Mutex<ClientConductor>>, user callbacks run with that mutex held by their own thread, std's Mutex is not re-entrant: the
+   call never returns and the conductor thread is lost. `is_in_callback` / `ensure_not_reentrant` ("client cannot be invoked
+   within callback") are never reached - and would only report through the error handler and go on. C10_total above is the
+   statement for callbacks that do not call the client; the three theorems below delimit the class exactly. *)
+(* the witness: whatever the state and the operation, if the operation fires a user callback while the callbacks call the
+   client, it hangs (and nothing of it is observable) *)
+Theorem C10_reentrant_call_deadlocks : forall c x o,
+  r_script x <> 0 -> fires (snd (fst (snd (step c (r_s x) o)))) = true -> rstep c x (ROp o) = (x, (Hang, [], [])).
+Proof. exact reent_deadlock. Qed.
+Print Assumptions C10_reentrant_call_deadlocks.
+(* outside that class every operation answers Ok or Err, scripted callbacks or not *)
+Theorem C10_total_unless_reentrant : forall c x o,
+  fine (fst (fst (snd (rstep c x o)))) \/
+  (exists o', o = ROp o' /\ r_script x <> 0 /\ fires (snd (fst (snd (step c (r_s x) o')))) = true /\ snd (rstep c x o) = (Hang, [], [])).
+Proof. exact reent_total_or_deadlock. Qed.
+Print Assumptions C10_total_unless_reentrant.
+(* an operation whose callbacks only record, or that fires no callback, is the operation of the plain model: the conductor
+   state is exactly what it would be without scripts *)
+Theorem C10_scripted_is_plain : forall c x o,
+  r_script x = 0 \/ fires (snd (fst (snd (step c (r_s x) o)))) = false ->
+  rstep c x (ROp o) = (mkR (fst (step c (r_s x) o)) (r_script x), snd (step c (r_s x) o)) /\
+  fine (fst (fst (snd (rstep c x (ROp o))))).
+Proof. exact reent_plain. Qed.
+Print Assumptions C10_scripted_is_plain.
+(* the oracles judge scripted histories as the plain ones: true on the model's observations of every history that does not
+   dead-lock, false on every observation with a hang *)
+Theorem C10_oracle_model_scripted : forall c0 now0 tdrv tis ops,
+  Forall (fun o => match o with ROp o' => tick_ok o' | RScript _ => True end) ops ->
+  forallb (fun y => negb (is_hang y)) (rrun_obs c0 now0 tdrv tis ops) = true ->
+  holds_c10 c0 now0 tdrv tis (map plain ops) (rrun_obs c0 now0 tdrv tis ops) = true /\
+  holds_c09 c0 now0 tdrv tis (map plain ops) (rrun_obs c0 now0 tdrv tis ops) = true.
+Proof. exact oracles_reent. Qed.
+Print Assumptions C10_oracle_model_scripted.
+Theorem C10_oracle_rejects_deadlock : forall c0 now0 tdrv tis ops outs,
+  existsb is_hang outs = true -> holds_c10 c0 now0 tdrv tis ops outs = false.
+Proof. exact c10_rejects_deadlock. Qed.
+Print Assumptions C10_oracle_rejects_deadlock.
+
+Example C10_reentrant_witness :
+  (* a subscription-ready answer fires on_new_subscription, which calls add_publication: dead-lock *)
+  rrun_obs 0 1000000 10000 5000 [ROp (SetDriverHb 1000000); ROp (Add KSub 4 9 0); RScript 1; ROp (Find KSub 1); ROp (DoWork BNone);
+                                 ROp (DoWork (BEvent (EvSubReady 1 6))); ROp (Find KSub 1)] =
+    [(Ok [], [], []); (Ok [1], [], [Cmd 4 0 1 [-1; 4; 9]]); (Ok [], [], []); (Err NotReady, [], []); (Ok [0], [], []); (Hang, [], [])]
+  (* the same history with callbacks that only record goes on *)
+  /\ map (fun x : out => fst (fst x))
+       (rrun_obs 0 1000000 10000 5000 [ROp (SetDriverHb 1000000); ROp (Add KSub 4 9 0); RScript 0; ROp (DoWork (BEvent (EvSubReady 1 6))); ROp (Find KSub 1)]) =
+     [Ok []; Ok [1]; Ok []; Ok [1]; Ok [0]].
+Proof. split; vm_compute; reflexivity. Qed.
+
 (* ---- the oracle on the model ---- *)
-(* the three judges of Oracle/C10Oracle.v are true on the model's own observations, for every history whose clock does
+(* the four judges of Oracle/C10Oracle.v are true on the model's own observations, for every history whose clock does
    not run backwards (tick_ok: every Tick d has 0 <= d) *)
 Theorem C10_oracle_model : forall c0 now0 tdrv tis ops,
   Forall tick_ok ops -> holds_c10 c0 now0 tdrv tis ops (run_obs c0 now0 tdrv tis ops) = true.
-Proof. intros. unfold holds_c10. rewrite c10_core_model by assumption. rewrite c10_imgs_model, c10_ctrs_model. reflexivity. Qed.
+Proof. intros. unfold holds_c10. rewrite c10_core_model by assumption. rewrite c10_imgs_model, c10_ctrs_model, c10_chan_model. reflexivity. Qed.
 Print Assumptions C10_oracle_model.
 
 (* ---- the hypotheses are satisfiable: a history with faults, every kind of resource and a close ---- *)
@@ -162,6 +249,27 @@ Example C10_example_run :
   /\ Forall tick_ok ex_faults.
 Proof. repeat split; try (vm_compute; reflexivity). repeat constructor; cbn; lia. Qed.
 
+(* a channel endpoint error on status indicator 6 with two subscriptions (one cached with an image, one held with two) and a held
+   publication on it, another publication on 7: three error-handler calls, three unavailable-image callbacks, no hang *)
+Definition ex_chan10 : list op :=
+  [SetDriverHb 1000000; Add KSub 1 1 0; Add KSub 2 2 0; Add KPub 3 3 0; Add KPub 4 4 0;
+   DoWork (BEvent (EvSubReady 1 6)); DoWork (BEvent (EvSubReady 2 6)); DoWork (BEvent (EvPubReady 3 3 3 5 3 6)); DoWork (BEvent (EvPubReady 4 4 4 5 3 7));
+   Find KSub 2; Find KPub 3; Find KPub 4;
+   DoWork (BEvent (EvAvailImage 50 1 2 1)); DoWork (BEvent (EvAvailImage 51 1 2 2)); DoWork (BEvent (EvAvailImage 52 1 2 2));
+   DoWork (BEvent (ev_error 6 4)); Peek KSub 2; Peek KPub 3; Peek KPub 4; Find KSub 1; Find KSub 2; Find KPub 3; Find KPub 4;
+   DoWork (BEvent (EvAvailImage 53 1 2 2)); DoWork (BEvent (ev_error 6 4)); Close].
+
+Example C10_example_chan :
+  nth 15 (run_obs 0 1000000 10000 5000 ex_chan10) (Panic, [], []) =
+    (Ok [1], [CbErr (EChannelEndpoint 6); CbUnavailImg 1 50 1; CbErr (EChannelEndpoint 6); CbUnavailImg 2 51 1; CbUnavailImg 2 52 1;
+              CbErr (EChannelEndpoint 6)], [])
+  /\ map (fun x : out => fst (fst x)) (skipn 16 (run_obs 0 1000000 10000 5000 ex_chan10)) =
+     [Ok [0; 1; 0; 6; 0; 0]; Ok [1; 1; 0; 5; 6; 3]; Ok [2; 0; 0; 5; 7; 4]; Err NotFound; Err NotFound; Err NotFound; Ok [2]; Ok [1]; Ok [1]; Ok [0]]
+  /\ map (fun x : out => snd (fst x)) (skipn 23 (run_obs 0 1000000 10000 5000 ex_chan10)) = [[]; []; [CbClose]]
+  /\ holds_c10 0 1000000 10000 5000 ex_chan10 (run_obs 0 1000000 10000 5000 ex_chan10) = true
+  /\ holds_c09 0 1000000 10000 5000 ex_chan10 (run_obs 0 1000000 10000 5000 ex_chan10) = true.
+Proof. repeat split; vm_compute; reflexivity. Qed.
+
 (* the oracle is not vacuous: it rejects the observations of the unrepaired implementation *)
 Example C10_oracle_rejects_faulty_observations :
   (* the duty cycle after an overrun panics *)
@@ -171,5 +279,12 @@ Example C10_oracle_rejects_faulty_observations :
        [(Ok [1], [], [Cmd 4 0 1 [-1; 4; 9]]); (Ok [1], [CbNewSub 1 9 4], []); (Hang, [], [])] = false
   (* the close handler fires on every stalled duty cycle *)
   /\ holds_c10 0 1000000 10000 5000 [Tick 5001; DoWork BNone; Tick 5001; DoWork BNone]
-       [(Ok [], [], []); (Ok [1], [CbClose; CbErr EServiceTimeout], []); (Ok [], [], []); (Ok [1], [CbClose; CbErr EServiceTimeout; CbErr EWasInactive], [])] = false.
+       [(Ok [], [], []); (Ok [1], [CbClose; CbErr EServiceTimeout], []); (Ok [], [], []); (Ok [1], [CbClose; CbErr EServiceTimeout; CbErr EWasInactive], [])] = false
+  (* a channel endpoint error on the channel of a ready subscription is not told to the error handler *)
+  /\ holds_c10 0 1000000 10000 5000 [Add KSub 4 9 0; DoWork (BEvent (EvSubReady 1 6)); DoWork (BEvent (EvChanError 6))]
+       [(Ok [1], [], [Cmd 4 0 1 [-1; 4; 9]]); (Ok [1], [CbNewSub 1 9 4], []); (Ok [1], [], [])] = false
+  (* ... or is told although nothing sits on that channel, or by another operation *)
+  /\ holds_c10 0 1000000 10000 5000 [Add KSub 4 9 0; DoWork (BEvent (EvSubReady 1 6)); DoWork (BEvent (EvChanError 7))]
+       [(Ok [1], [], [Cmd 4 0 1 [-1; 4; 9]]); (Ok [1], [CbNewSub 1 9 4], []); (Ok [1], [CbErr (EChannelEndpoint 7)], [])] = false
+  /\ holds_c10 0 1000000 10000 5000 [DoWork BNone] [(Ok [0], [CbErr (EChannelEndpoint 7)], [])] = false.
 Proof. repeat split; vm_compute; reflexivity. Qed.
